@@ -162,6 +162,8 @@ type wWorld struct {
 	panicked any
 	watchdog *time.Timer
 	noteSeq  func(route string, sel int) int // symbolic seq of a {note} (op.M): set by the C15 observer
+	emptyAt  map[string]time.Time            // route -> when the request which detached its last session was sent
+	lastSend time.Time
 	files    []string                        // urls of uploads made by "upload" ops
 	fileLocs []string                        // where their bytes are, removed at shutdown
 }
